@@ -71,6 +71,9 @@ func runC11(p *Prog, r *Report) {
 	r.Describe("C11.7/listen-vs-close", "concurrent Listen and Close on one listener: the closed test and the bind are one critical section")
 	coreListenAtomic(p, r, "C11.7/listen-vs-close")
 
+	r.Describe("C11.8/E10c", "the blocking re-send under the socket lock in SUB (allow-listed in C12) needs a queue of capacity >= 1: option values that make it unbuffered wedge every call on the socket")
+	e10Capacity(p, r, "C11.8/E10c", needCapOne, func(dest string) bool { return dest == "protocol/sub.context.recvQ" })
+
 	r.Describe("C11.3/E1", "no lock is acquired while already held (directly or through a callee)")
 	e1Obligations(p, r, "C11.3/E1", map[string]bool{"double-lock": true, "callee-relock": true})
 }
